@@ -87,17 +87,46 @@ theorem C13_assert_unreachable (cfg : Cfg) (hs : 1 ≤ cfg.start) (hl : 1 ≤ cf
 
 -- clause 3: after an unclean stop the replay state is unknown -----------------------------------
 
-/-- **C13 (unclean ⇒ unknown).** Once a lifetime has accepted a request from its (initialised)
-replay window, then whatever follows — more traffic, crashes after any effect, kills, reloads,
-aborted shutdowns — as long as no clean shutdown completes, `sequence.json` says `"unknown"`:
-every load yields an uninitialised window (which forces Echo recovery). -/
-theorem C13_unclean_is_unknown (cfg : Cfg) (s : State) (h : InvW cfg s) (ev : Ev) (n : Nat)
+/- Full statement of this clause as the property words it:
+
+     "after a crash in a lifetime that accepted ANY request, a load yields an uninitialised window"
+
+   i.e. `(step cfg s ev).2 = .accepted n v` for either `v`.  This is FALSE of the model and of the
+   code alike (witness below, `C13_unclean_is_unknown_counterexample`; the same history is
+   `corpus/C13/null_window_corner.json`, on which implementation and model agree): a process that
+   loaded `{"index": null, "bitfield": null}` (written by a clean shutdown of a process whose
+   window was never initialised) has `replay_window_persisted = True` with an uninitialised
+   window; Echo recovery initialises the window without calling `_replay_window_changed`, and the
+   next chunk store of `post_seqnoincrease` then writes the live window.  A crash after that
+   reloads an initialised window — but exactly the dead process's one, so nothing seen before is
+   accepted again: that safety consequence is proved at full strength as
+   `C13_reaccept_needs_echo`.  What is proved literally is the clause for requests accepted from
+   an initialised window (`v = false`), which is every acceptance except Echo recovery itself. -/
+
+/-- **C13 (unclean ⇒ unknown), partial: acceptance by Echo recovery excluded.** Once a lifetime
+has accepted a request from its (initialised) replay window, then whatever follows — more
+traffic, crashes after any effect, kills, reloads, aborted shutdowns — as long as no clean
+shutdown completes, `sequence.json` says `"unknown"`: every load yields an uninitialised window
+(which forces Echo recovery). -/
+theorem C13_unclean_is_unknown_partial (cfg : Cfg) (s : State) (h : InvW cfg s) (ev : Ev) (n : Nat)
     (hacc : (step cfg s ev).2 = .accepted n false) (evs : List Ev)
     (hnc : ∀ e ∈ evs, completesClean e = false) (echo : Nat) :
     (load cfg (run cfg (step cfg s ev).1 evs).1.dir echo).window = none ∧
     (load cfg (run cfg (step cfg s ev).1 evs).1.dir echo).windowPersisted = false := by
   have hu := run_unknown cfg evs _ (step_struck_unknown cfg s ev h n hacc) hnc
   exact ⟨by rw [load_window]; exact diskWindow_unknown hu.1, load_of_unknown echo hu.1⟩
+
+/-- the witness against the full wording: the third lifetime accepts 9 by Echo recovery, its
+eleventh protect stores the live window, it is killed, and the load yields the initialised
+window `{index 9, bitfield 1}` (which still refuses 9). -/
+theorem C13_unclean_is_unknown_counterexample :
+    let cfg : Cfg := { start := 10, limit := 10000, size := 32 }
+    let r := run cfg State.fresh
+      ([.load 100, .recv ⟨5, true, none⟩ none, .kill, .load 101, .cleanShutdown none, .load 102,
+        .recv ⟨9, true, some 102⟩ none] ++ List.replicate 11 (.protect none) ++ [.kill])
+    r.2.contains (.accepted 9 true) = true ∧
+    (load cfg r.1.dir 103).window = some { size := 32, index := 9, bitfield := 1 } := by
+  decide
 
 /-- **C13 (re-acceptance needs Echo).** In every history (crashes anywhere, reloads, clean or
 unclean stops), a request number that was accepted is not accepted again unless, in between,
